@@ -20,7 +20,9 @@ EXPLANATION = (
     "ValidationContext: a list taken from one cache is not mutated in place.")
 UNVERIFIED = [
     "independence of the individual rules and of TypeInfo's stack discipline; determinism of the traversal order",
-    "that validate() returns a prefix of the unlimited list (needs the traversal to be deterministic)",
+    "that validate() returns a prefix of the unlimited list, the union of the rules run alone, reprint invariance "
+    "(BOUNDED stand-in props/C12_ref.py over a corpus; deductively only: at most n errors plus the notice, and no "
+    "handler inside the rules swallows the abort that report_error raises)",
     "the other context caches (fragments, spreads): their keys are nodes with structural equality and the cached values are structural too (argued, not proved)",
 ]
 TRUSTED = []
@@ -102,8 +104,75 @@ def rule_state_obligations(world):
     return out
 
 
+def abort_propagates_obligations(world):
+    """The error limit works by an exception: the callback handed to the rules raises
+    ValidationAbortedError (a GraphQLError) out of report_error, and validate() catches it.  That only
+    works if nothing in between swallows it: in every function of graphql/validation/rules/*.py and
+    validation_context.py, a `try` whose body can report an error (a call of report_error / on_error,
+    directly or through a function of the same module that does) must not have a handler that
+    catches GraphQLError or one of its bases without re-raising.  Finite, syntactic, over the modules
+    of the current tree; one obligation per function that contains a `try`."""
+    import importlib
+    import pkgutil
+    import graphql.validation.rules as pkg
+    mods = ["graphql.validation.validation_context", "graphql.validation.validate"] + sorted(
+        m.name for m in pkgutil.iter_modules(pkg.__path__, pkg.__name__ + ".") if not m.ispkg)
+    CATCHES = {"GraphQLError", "Exception", "BaseException", "ValidationAbortedError"}
+    out = []
+    for name in mods:
+        importlib.import_module(name)
+        _m, tree, _ = world.load_module(name)
+        funcs = {n.name: n for n in ast.walk(tree) if isinstance(n, (ast.FunctionDef, ast.AsyncFunctionDef))}
+
+        def reports(node, seen=()):
+            for c in ast.walk(node):
+                if isinstance(c, ast.Call):
+                    f = c.func
+                    nm = f.attr if isinstance(f, ast.Attribute) else (f.id if isinstance(f, ast.Name) else None)
+                    if nm in ("report_error", "on_error"):
+                        return True
+                    if nm in funcs and nm not in seen and reports(funcs[nm], seen + (nm,)):
+                        return True
+            return False
+        for fname, fn in sorted(funcs.items()):
+            tries = [t for t in ast.walk(fn) if isinstance(t, ast.Try)]
+            if not tries:
+                continue
+            bad = []
+            for t in tries:
+                body = ast.Module(body=t.body, type_ignores=[])
+                if not reports(body):
+                    continue
+                for h in t.handlers:
+                    names = set()
+                    if h.type is None:
+                        names = {"BaseException"}
+                    else:
+                        for x in ast.walk(h.type):
+                            if isinstance(x, ast.Name):
+                                names.add(x.id)
+                            elif isinstance(x, ast.Attribute):
+                                names.add(x.attr)
+                    reraises = any(isinstance(x, ast.Raise) and x.exc is None for x in ast.walk(
+                        ast.Module(body=h.body, type_ignores=[])))
+                    if names & CATCHES and not reraises and name != "graphql.validation.validate":
+                        bad.append(f"line {t.lineno}: except {sorted(names & CATCHES)[0]}")
+            if name == "graphql.validation.validate":
+                continue     # validate() itself is where the abort is meant to be caught (its contract)
+            out.append(_finite(f"{name}.{fname}", "FRAME",
+                               "no handler swallows the abort raised by report_error inside its try body "
+                               "(the error limit must reach validate())", not bad, "; ".join(bad)))
+    return out
+
+
 def extra_obligations(world, tier, seed):
     out = []
+    out += abort_propagates_obligations(world)
+    # the overlapping-fields cache must be keyed by node identity: with structural keys two equal
+    # selection sets under different parents share an entry and the verdict depends on whether the
+    # document carries locations (reprinting / no_location would change the messages)
+    from .C14 import refmap_obligation
+    out += refmap_obligation(world)
     mod, tree, _ = world.load_module("graphql.validation.validate")
     from graphql.language.ast import QUERY_DOCUMENT_KEYS
     table = mod.query_document_keys_to_validate
@@ -196,6 +265,50 @@ class B(Count): tag = "with"
 validate(schema, doc, [NoUndefinedVariablesRule, B])
 assert seen["alone"] == seen["with"], seen
 '''
+
+
+def _ref_search(tier, seed):
+    import json
+    code = ("import json\nfrom props.C12_ref import search\n"
+            f"r = search(seed={int(seed)}, thorough={tier == 'thorough'!r})\n"
+            "print('BOUNDED ' + json.dumps(r, default=str))")
+    rc, outp = run_native(code, timeout=1500)
+    for line in outp.splitlines():
+        if line.startswith("BOUNDED "):
+            return json.loads(line[8:]), outp
+    raise RuntimeError(outp[-600:])
+
+
+def bounded_checks(tier, seed):
+    """Union of the rules run alone, invariance under reprinting, determinism, no modification and the
+    prefix property of the error limit are statements about validate() as a whole: the statement
+    itself is run over a corpus, bounded (props/C12_ref.py)."""
+    res, outp = _ref_search(tier, seed)
+    return [{"id": "C12/bounded/statement-over-corpus", "function": "graphql.validation.validate.validate",
+             "tool": "the statement of C12 (prefix property of max_errors 0..5, union of single rules, reprint / "
+                     "no_location invariance, determinism, no modification) over a corpus, native",
+             "bound": "semantic_corpus() of props/C01_pipeline.py + the parseable documents of props/parser_replay.corpus() ("
+                      + ("all" if tier == "thorough" else "every 6th") + "), one schema, all specified rules and each alone",
+             "failed": res is not None, "input": res, "output": outp[-1500:]}]
+
+
+def replay_extra(o):
+    """The abort-propagation obligation is replayed by the bounded statement search (the prefix
+    property fails when a handler swallows the abort)."""
+    if "must be identity keyed" in o.get("text", ""):
+        from .C14 import F8_WITNESS
+        rc, outp = run_native(F8_WITNESS)
+        if rc != 0:
+            return {"confirmed": True, "entry": "validate(schema, parse(q, no_location=...))",
+                    "input": "{ pets { ... on Dog { f { v } } ... on Cat { f { v } } } } with and without locations",
+                    "observed": outp[-400:]}
+        return {"confirmed": False}
+    if "swallows the abort" not in o.get("text", ""):
+        return None
+    res, outp = _ref_search("quick", 0)
+    if res:
+        return dict(res, confirmed=True, entry="validate(schema, document, max_errors=n)")
+    return {"confirmed": False}
 
 
 def native_checks(tier, seed):
